@@ -16,6 +16,7 @@ import (
 	"encoding/binary"
 	"fmt"
 	"math/big"
+	"sync"
 
 	"github.com/btcsuite/btcd/btcec/v2"
 	dcrd "github.com/decred/dcrd/dcrec/secp256k1/v4"
@@ -204,4 +205,26 @@ func (k *Key) String() string {
 		n = "+nonce"
 	}
 	return fmt.Sprintf("%s#%d%s", k.Type, k.Index, n)
+}
+
+var (
+	lzMu    sync.Mutex
+	lzCache = map[string][]*Key{}
+	lzNext  = map[string]int{}
+)
+
+// WithLeadingZero returns the n-th key of the type (in index order) one of whose public coordinates begins with a zero byte:
+// the keys on which fixed-width encodings differ from minimal ones (about one key in 128 per coordinate).
+func WithLeadingZero(t string, n int) *Key {
+	lzMu.Lock()
+	defer lzMu.Unlock()
+	for len(lzCache[t]) <= n {
+		k := New(t, lzNext[t])
+		lzNext[t]++
+		x, y := k.XY()
+		if x[0] == 0 || (y != nil && y[0] == 0) {
+			lzCache[t] = append(lzCache[t], k)
+		}
+	}
+	return lzCache[t][n]
 }
